@@ -238,6 +238,12 @@ def run(ctx):
         ctx.counters["prog_hook_" + h] = hook.get(h, 0)
     ctx.counters["prog_hook_WAITLIST_MAX_CHAIN"] = maxchain
     ctx.extra["prog_programs"] = {n: k.describe() for (n, _), k in zip(sources, knobs)}
+    for name, bb in built.items():          # ~8 MB per executable: do not leave them around (the sources stay, replay dirs hold the witnesses)
+        for exe in bb.exes.values():
+            try:
+                os.unlink(exe)
+            except OSError:
+                pass
     if not want:
         ctx.required_counters = list(ctx.required_counters) + [
             "prog_runs_ok", "prog_hook_WAITLIST_ENQUEUE", "prog_hook_WAITLIST_WAKEUP", "prog_hook_WAITLIST_WAKEUP_ALL", "prog_hook_BLOCK_CALLS",
